@@ -32,55 +32,42 @@ theorem txHeader_readFrom_fixed_noPanic (fx : Fix) (hmd : fx.extraLen = true) (h
     refine NoPanic.ite (fun _ => NoPanic.fail _) (fun hg => ?_)
     rw [htl] at hg
     simp only [Bool.true_and, decide_eq_true_eq] at hg
-    have hg' : ¬ (b.length < r.2 + sha256Size + storeTxIDSize) := fun h => hg (by simpa using h)
+    have hg' : ¬ (b.length < r.2 + sha256Size + storeTxIDSize + sha256Size) := fun h => hg (by simpa using h)
     simp (disch := omega) only [be64At_ok, sliceFrom_ok, M.pure_bind]
     refine NoPanic.ite (fun _ => NoPanic.fail _) (fun _ => NoPanic.pure _)
 
-/-- The code as it is behaves like the code with the tail guard (and the guarded metadata decoder),
-or panics where that one returns an error. -/
-theorem txHeader_readFrom_rel (b : Bytes) :
-    PanicOr (TxHeader.readFrom Fix.none b) (TxHeader.readFrom Fix.all b) := by
+theorem copyFixed_of_le {n : Nat} {src : Bytes} (h : n ≤ src.length) : copyFixed n src = src.take n := by
+  unfold copyFixed
+  rw [Nat.sub_eq_zero_of_le h]
+  simp
+
+/-- With the tail guard an accepted header has all of `Eh`, `BlTxID`, `BlRoot` in the buffer: `Eh` and
+`BlRoot` are the 32 bytes at their offsets (no partially copied, zero-padded digest). -/
+theorem txHeader_readFrom_fixed_tail (fx : Fix) (htl : fx.hdrTail = true) (b : Bytes) :
+    PostOk (TxHeader.readFrom fx b) (fun h => ∃ i, i + 72 ≤ b.length ∧
+      h.eh = (b.drop i).take 32 ∧ h.blTxID = beVal ((b.drop (i + 32)).take 8) ∧ h.blRoot = (b.drop (i + 40)).take 32) := by
   unfold TxHeader.readFrom
   c16_consts
   have h32 : sha256Size = 32 := rfl
-  refine PanicOr.ite (fun _ => PanicOr.refl _) (fun hlen => ?_)
+  refine PostOk.ite (fun _ => PostOk.fail) (fun hlen => ?_)
   simp (disch := omega) only [bind_eq, pure_eq, be64At_ok, be16At_ok, sliceFrom_ok, M.pure_bind]
-  refine PanicOr.ite (fun _ => PanicOr.refl _) (fun _ => ?_)
-  refine PanicOr.bind ?_ (fun r => ?_)
-  · refine PanicOr.ite (fun _ => PanicOr.refl _) (fun _ => PanicOr.ite (fun _ => ?_) (fun _ => PanicOr.refl _))
-    refine PanicOr.ite (fun _ => PanicOr.refl _) (fun hg => ?_)
-    simp only [Bool.or_eq_true, decide_eq_true_eq, not_or] at hg
-    refine PanicOr.bind ?_ (fun r => PanicOr.refl _)
-    refine PanicOr.ite (fun _ => ?_) (fun _ => PanicOr.refl _)
-    rw [slice_ok (by omega) (by omega)]
-    simp only [M.pure_bind]
-    exact PanicOr.bind (txMetadata_readFrom_rel _) (fun md => PanicOr.refl _)
-  · refine PanicOr.ite (fun _ => PanicOr.refl _) (fun _ => ?_)
-    simp only [Fix.none_hdrTail, Fix.all_hdrTail, Bool.false_and, Bool.false_eq_true, if_false, Bool.true_and, decide_eq_true_eq]
-    refine PanicOr.guard (fun hg => ?_) (fun _ => PanicOr.refl _)
-    by_cases hi : r.2 ≤ b.length
-    · rw [sliceFrom_ok hi]
-      simp only [M.pure_bind]
-      exact M.bind_res_panic (be64At_panic (by omega))
-    · rw [sliceFrom_panic (by omega)]
-      simp
-
-/-- Version-0 headers: the minimum-length test covers the whole layout, the code as it is never panics. -/
-theorem txHeader_readFrom_v0_noPanic (b : Bytes) (hv : beVal ((b.drop 48).take 2) = 0) :
-    NoPanic (TxHeader.readFrom Fix.none b) := by
-  unfold TxHeader.readFrom
-  c16_consts
-  have h32 : sha256Size = 32 := rfl
-  refine NoPanic.ite (fun _ => NoPanic.fail _) (fun hlen => ?_)
-  simp (disch := omega) only [bind_eq, pure_eq, be64At_ok, be16At_ok, sliceFrom_ok, M.pure_bind]
-  have h48 : 0 + storeTxIDSize + sha256Size + storeTsSize = 48 := by omega
-  rw [h48, hv]
-  refine NoPanic.ite (fun _ => NoPanic.fail _) (fun _ => ?_)
-  simp only [if_true, M.pure_bind]
-  refine NoPanic.ite (fun _ => NoPanic.fail _) (fun _ => ?_)
-  simp (disch := omega) only [Fix.none_hdrTail, Bool.false_and, Bool.false_eq_true, if_false, be64At_ok, sliceFrom_ok, M.pure_bind]
-  refine NoPanic.ite (fun _ => NoPanic.fail _) (fun _ => NoPanic.pure _)
-
+  refine PostOk.ite (fun _ => PostOk.fail) (fun _ => ?_)
+  refine PostOk.bind (fun r _ => ?_)
+  refine PostOk.ite (fun _ => PostOk.fail) (fun _ => ?_)
+  refine PostOk.ite (fun _ => PostOk.fail) (fun hg => ?_)
+  rw [htl] at hg
+  simp only [Bool.true_and, decide_eq_true_eq] at hg
+  have hg' : ¬ (b.length < r.2 + sha256Size + storeTxIDSize + sha256Size) := fun h => hg (by simpa using h)
+  simp (disch := omega) only [be64At_ok, sliceFrom_ok, M.pure_bind]
+  refine PostOk.ite (fun _ => PostOk.fail) (fun _ => ?_)
+  have h8 : storeTxIDSize = 8 := rfl
+  refine PostOk.pure ⟨r.2, by omega, ?_, ?_, ?_⟩
+  · simp only []
+    rw [h32, copyFixed_of_le (by simp only [List.length_drop]; omega)]
+  · simp only []
+    rw [h32]
+  · simp only []
+    rw [h32, h8, copyFixed_of_le (by simp only [List.length_drop]; omega)]
 
 /-- `TxHeader.ReadFrom` allocates only through the metadata decoder, whose input is at most
 `maxTxMetadataLen` bytes. -/
